@@ -67,6 +67,10 @@ def gen_locations(rng, bounds, master_locs, n):
                 v = hi
             elif x < 0.5:
                 v = d
+            elif x < 0.58:
+                v = hi + (hi - lo) * 0.25  # beyond the axis: clamped
+            elif x < 0.64:
+                v = lo - (hi - lo) * 0.25
             else:
                 v = lo + (hi - lo) * rng.choice([0.125, 0.25, 0.5, 0.625, 0.75, 0.9])
             loc[name] = v
@@ -101,7 +105,8 @@ def gen_scenario(seed, profile=None):
             steps.append({"op": "instance", "loc": loc})
             produced += 1
         elif x < 0.6:
-            steps.append({"op": "glyph_instance", "glyph": rng.choice(names), "loc": loc})
+            steps.append({"op": "glyph_instance", "glyph": rng.choice(names), "loc": loc,
+                          "into": rng.random() < 0.3})
         elif x < 0.7:
             steps.append({"op": "layer_get", "layer": rng.randrange(nsrc), "glyph": rng.choice(names)})
         elif x < 0.8 and steps:
@@ -208,6 +213,7 @@ class Model:
     def __init__(self, world, round_geometry):
         ds = world.ds
         self.axes = ds_facts(ds)
+        self.axes_raw = [dict(a, tag=x.tag) for a, x in zip(self.axes, ds.axes)]
         self.bounds = instmodel.axis_bounds(self.axes)
         self.axis_order = [b[0] for b in self.bounds]
         self.rg = round_geometry
@@ -346,7 +352,11 @@ def _request(sysm, st, fault=None):
                 res = inst.generate_instance(_instance_descriptor(st["loc"]))
             elif st["op"] == "glyph_instance":
                 loc = {**inst.default_design_location, **st["loc"]}
-                res = inst.generate_glyph_instance(st["glyph"], inst.normalize(loc))
+                if st.get("into"):
+                    res = inst.generate_glyph_instance(st["glyph"], inst.normalize(loc),
+                                                       output_glyph=inst.new_glyph(st["glyph"]))
+                else:
+                    res = inst.generate_glyph_instance(st["glyph"], inst.normalize(loc))
             elif st["op"] == "layer_get":
                 layers = inst.interpolated_layers
                 res = layers[st["layer"] % len(layers)][st["glyph"]]
@@ -463,6 +473,16 @@ def check_instance(model, st, snap, msgs):
     if got_loc is None or sorted(map(list, got_loc)) != sorted(want_loc):
         msgs.append("lib/designspace.location model %r got %r" % (want_loc, got_loc))
     claims += 1
+    # OS/2 weight / width class derived from the wght / wdth axes when no master sets them
+    for ax in model.axes_raw:
+        attr = {"wght": "openTypeOS2WeightClass", "wdth": "openTypeOS2WidthClass"}.get(ax.get("tag"))
+        if attr is None or any(attr in model.twins[s_["font"]]["info"] for s_ in model.sources):
+            continue
+        user = instmodel.map_backward(ax, full[ax["name"]])
+        want = instmodel.weight_class(user) if ax["tag"] == "wght" else instmodel.width_class(user)
+        if snap["info"].get(attr) != want:
+            msgs.append("info/%s model %r got %r (axis user value %r)" % (attr, want, snap["info"].get(attr), user))
+        claims += 1
     for attr, v in model.info_expect(st["loc"]).items():
         got = snap["info"].get(attr)
         if not instmodel.num_close(v, got, model.rg and attr != "italicAngle"):
